@@ -3,7 +3,6 @@ package main
 import (
 	"bufio"
 	"bytes"
-	"crypto/sha256"
 	"encoding/json"
 	"fmt"
 	"io"
@@ -61,11 +60,8 @@ func mkdumps(args []string) int {
 		seen++
 		// a thinning that does not depend on the order of the sources: by content hash (all sources are thinned alike, none is
 		// cut off by the cap because it comes late)
-		if stride > 1 {
-			h := sha256.Sum256(src)
-			if (int(h[0])<<8|int(h[1])+seed)%stride != 0 {
-				return
-			}
+		if !thinKeep(src, stride, seed) {
+			return
 		}
 		var p *bcl.Prog
 		func() {
